@@ -10,6 +10,7 @@ reg(Check(
         "typed values and value.Equal are those of coq/Value/ValueModel.v (b19's model, every arm of the oneof; floats as IEEE-754 bit patterns)",
         "cache created without latency windows and server name",
     ],
+    search_seeds=1,
     modelled=["cache/cache.go: Cache.GnmiUpdate, Target.GnmiUpdate, gnmiUpdate, gnmiRemove, toDeleteNotification, checkTimestamp, Reset, Remove, Add, updateMeta/generateMetaUpdates, Query; metadata/metadata.go counters; ctree via CTreeModel; path.ToStrings/joinPrefixAndPath via PathModel"],
 ),
     level_text="Theorems in coq/Props/C02.v state the timestamp discipline over the Gallina model of cache.Target for all notification histories (per-leaf refinement to a four-line recursion, stale / equal-timestamp / delete / future / collision clauses); the model is tied to cache/cache.go by a correspondence run (all short histories on one leaf + seeded random histories) evaluated inside Coq, which also applies a flat-map specification of the property to the implementation's own Query results and error classes.",
